@@ -19,6 +19,7 @@ import Genshi.Lemmas.I18nStarts
 import Genshi.Lemmas.I18nLookups
 import Genshi.Lemmas.I18nChoose
 import Genshi.Lemmas.I18nMsgLookup
+import Genshi.Lemmas.I18nLookups2
 import Genshi.Model.I18nExtract
 namespace Genshi.Props.C19
 open Genshi Genshi.I18n
@@ -134,24 +135,41 @@ theorem reorder_is_permutation (ds : List Dir) : (reorder ds).dirs.Perm ds := re
 
 /-! ## look-ups ⊆ extraction -/
 
-/-- **lookups_subset_extract, text / attribute traversal.**
+/-- **lookups_subset_extract** (partial).
     Full statement: every message id containing a letter that rendering passes to the
     catalogue is among the messages `Translator.extract` reports for the same stream.
-    Proved here, by a simultaneous induction over `Translator.__call__` and
-    `Translator.extract` with the skip counter shared, for every template stream none of whose
-    SUB events carries a message directive (msg / choose) — any nesting of py: directives,
-    i18n:domain / ctxt / comment (including the loops that edit the directive list under
-    their own iterator), ignored tags, xml:lang, any configuration, any context: extraction
-    never raises, and every id the translation pass looks up (text nodes and included
-    attributes) is extracted unless it has no letter.
-    Missing for the full statement: the look-ups made for message directives while rendering
-    (`msgId` = `format()` of the same buffer that `MsgDirective.extract` fills: tied by
-    correspondence and by `translate_format_id`) and the fragment-wise look-ups inside them
-    (finding C19-fragments: `fragments_looked_up_not_extracted`). -/
-theorem lookups_subset_extract_partial (cfg : Cfg) (ctx : Ctx) (s : TStream) (h : noMsgList s = true) :
+    Proved, by a simultaneous induction over `Translator.__call__` and `Translator.extract`
+    with the skip counter shared, for every template stream all of whose message directives
+    are plain `i18n:msg` elements `<t i18n:msg="ps">content</t>` with content free of nested
+    directives and a buffer that can be built (`okMsgList`) — and otherwise any nesting of
+    py: directives, i18n:domain / ctxt / comment (including the loops that edit the directive
+    list under their own iterator), ignored tags, xml:lang, any configuration and context:
+      * extraction never raises;
+      * every id the translation pass looks up (text nodes, included attributes, also the
+        attributes inside messages) is extracted unless it has no letter;
+      * every message id a message directive looks up while rendering (`msgIdsList`; by
+        `msg_lookup_extracted` the stream the directive sees after the pass gives the same id)
+        is extracted.
+    Missing for the full statement: `i18n:choose` (its branches are looked up fragment-wise:
+    finding C19-fragments, witness `fragments_looked_up_not_extracted`), message directives
+    with nested directives or in element form, and gettext calls made by template code. -/
+theorem lookups_subset_extract_partial (cfg : Cfg) (ctx : Ctx) (s : TStream) (h : okMsgList s = true) :
     ∃ ms, extract cfg s = .ok ms ∧
-      ∀ l ∈ lookups cfg ctx true true s, hasLetter l.msgid = true → l.msgid ∈ idsOf ms :=
-  lookups_subset_extract_noMsg cfg ctx s h
+      (∀ l ∈ lookups cfg ctx true true s, hasLetter l.msgid = true → l.msgid ∈ idsOf ms) ∧
+      (∀ id ∈ msgIdsList s, id ∈ idsOf ms) :=
+  lookups_subset_extract_msgs cfg ctx s h
+
+example : okMsgList
+    [.start ⟨[], ['d']⟩ [], .text ['H','i'],
+     .sub [.msg []] [.start ⟨[], ['p']⟩ [(⟨[], ['t','i','t','l','e']⟩, .str ['T'])], .text ['a',' '],
+                     .start ⟨[], ['b']⟩ [(⟨[], ['a','l','t']⟩, .str ['A'])], .text ['x'], .end_ ⟨[], ['b']⟩, .end_ ⟨[], ['p']⟩],
+     .end_ ⟨[], ['d']⟩] = true ∧
+    msgIdsList
+      [.start ⟨[], ['d']⟩ [], .text ['H','i'],
+       .sub [.msg []] [.start ⟨[], ['p']⟩ [(⟨[], ['t','i','t','l','e']⟩, .str ['T'])], .text ['a',' '],
+                       .start ⟨[], ['b']⟩ [(⟨[], ['a','l','t']⟩, .str ['A'])], .text ['x'], .end_ ⟨[], ['b']⟩, .end_ ⟨[], ['p']⟩],
+       .end_ ⟨[], ['d']⟩] = [['a',' ','[','1',':','x',']']] := by
+  refine ⟨by decide +kernel, by decide +kernel⟩
 
 example : noMsgList
     [.start ⟨[], ['p']⟩ [(⟨[], ['t','i','t','l','e']⟩, .str ['T','i','p'])], .text [' ', 'H', 'i', ' '],
